@@ -48,7 +48,7 @@ def witnesses(run: core.Run, stats: Counter):
             stats["witness_pass"] += 1
             continue
         if f is not None and f.get("status") == "open":
-            run.known(fid, f"{wid}: {d}")
+            run.known(fid, f"{wid}: {d}".replace("\n", " "))
         elif f is None and entry.get("owner") not in (None, "C03", "C04"):
             # owned by another property's check and not (yet) listed for C03: counted, not judged here
             stats[f"witness_unlisted_{fid}"] += 1
@@ -79,7 +79,7 @@ def main(run: core.Run) -> None:
 
     witnesses(run, stats)
 
-    drift = core.fingerprint_drift("C03", "onnxscript/optimizer/_constant_folding.py", R.FINGERPRINTED)
+    drift = R.fingerprint_drift()
     run.coverage["fingerprint_drift"] = drift
     n_models = run.size(1200, 12000)
     if drift and run.tier == "quick":
